@@ -58,11 +58,11 @@ def _enqueued_lambdas(db):
     return out
 
 
-def closures(ctx, db):
-    rid = ctx.rule('C11.closure-owns-waiter', 'WHO/TYPE', 'every closure handed to thread_pool::enqueue / run_detached: each capture whose type carries a waiter is an owning type whose destructor '
+def closures(ctx, db, rid_='C11.closure-owns-waiter', rid2_='C11.run-once'):
+    rid = ctx.rule(rid_, 'WHO/TYPE', 'every closure handed to thread_pool::enqueue / run_detached: each capture whose type carries a waiter is an owning type whose destructor '
                    'releases it: promise, async, suspend_point, or unique_ptr whose deleter reaches coro_queue::resume / awaiter::resume. A trivially destructible capture of a '
                    'waiter is a submission that can be forgotten', floor=4)
-    rid2 = ctx.rule('C11.run-once', 'COUNT', 'a closure that guards its waiter by unique_ptr releases the guard exactly once and resumes exactly once on every path of its body (never both run '
+    rid2 = ctx.rule(rid2_, 'COUNT', 'a closure that guards its waiter by unique_ptr releases the guard exactly once and resumes exactly once on every path of its body (never both run '
                     'and cancelled)', floor=2)
     sites = _enqueued_lambdas(db)
     if len(sites) < 3:
